@@ -141,9 +141,8 @@ def run(ctx):
             return res
         emits[m] = c[0]
     bt = [p for p in F.hir if p.endswith('emit::Emit<\'_>::block_type') or p.endswith('Emit::block_type')]
-    emit_self = ctor(EMIT, 'Emit', [('indices', sym('eindices')), ('local_indices', sym('local_indices')),
-                                    ('blocks', sym('blocks')), ('block_kinds', sym('block_kinds')),
-                                    ('encoder', sym('encoder')), ('map', NONE)])
+    import flowlib
+    _, emit_self, _unk = flowlib.emit_self(F)
     try:
         check_block_types(F, res, emits, emit_self)
         check_else_end(F, res)
